@@ -400,3 +400,53 @@ def gen_getter_cases(rng, n):
 
 
 py_checks.GENS["getters"] = gen_getter_cases
+
+
+# ---------------------------------------------------------------------------------------------
+# `setup` of the built-in events (group "eventsetup")
+# ---------------------------------------------------------------------------------------------
+from pams.events import FundamentalPriceShock, OrderMistakeShock, PriceLimitRule, TradingHaltRule  # noqa: E402
+
+for _c in (FundamentalPriceShock, OrderMistakeShock, PriceLimitRule, TradingHaltRule):
+    FIELDS[_c] = sorted(set(FIELDS.get(_c, []) + ["session", "simulator", "is_enabled", "target_market", "target_markets",
+                                                  "trigger_time", "price_change_rate", "trigger_change_rate",
+                                                  "shock_time_length", "halting_time_length", "order_volume",
+                                                  "order_time_length", "target_market_name"]))
+FIELDS[Simulator] = FIELDS[Simulator] + ["name2market"]
+
+
+def gen_eventsetup_cases(rng, n):
+    for _ in range(n):
+        sim, sessions, markets, events, t = _world(rng)
+        ses = rng.choice(sessions)
+        cls = rng.choice([FundamentalPriceShock, OrderMistakeShock, PriceLimitRule, TradingHaltRule])
+        ev = cls(event_id=0, prng=random.Random(0), session=ses, simulator=sim, name="ev")
+        names = ["m0", "m1", "idx", "zz"]
+        st = {}
+        if cls in (FundamentalPriceShock, OrderMistakeShock):
+            st = {"target": rng.choice(names[:3] if rng.random() < 0.9 else names),
+                  "triggerTime": rng.choice([0, 1, 5, 2.0] if rng.random() < 0.9 else [1.5]),
+                  "priceChangeRate": rng.choice([-0.1, 0.2, 0.0])}
+            if cls is OrderMistakeShock:
+                st.update({"orderVolume": rng.choice([1, 100, 3.0] if rng.random() < 0.2 else [1, 100]),
+                           "orderTimeLength": rng.choice([0, 5, 10])})
+                if rng.random() < 0.1:
+                    st["priceChangeRate"] = 1
+            elif rng.random() < 0.6:
+                st["shockTimeLength"] = rng.choice([0, 1, 3, 2.5] if rng.random() < 0.2 else [0, 1, 3])
+            if rng.random() < 0.07:
+                st["triggerDays"] = 1
+        else:
+            st = {"targetMarkets": rng.choice([["m0"], ["m1", "m0"], ["idx"], ["m0", "zz"], "m0", [1]] if rng.random() < 0.3
+                                               else [["m0"], ["m1", "m0"], ["idx", "m1"]]),
+                  "triggerChangeRate": rng.choice([0.05, 0.0, 1] if rng.random() < 0.2 else [0.05, 0.0, 0.3])}
+            if cls is TradingHaltRule:
+                st["haltingTimeLength"] = rng.choice([0, 3, 10, 2.5] if rng.random() < 0.2 else [0, 3, 10])
+        if rng.random() < 0.5:
+            st["enabled"] = rng.random() < 0.5
+        if rng.random() < 0.12 and st:
+            st.pop(rng.choice(sorted(st)))
+        yield SimCase(cls.__name__ + ".setup", ev.setup, [ev, st], [], [sim, ses] + markets)
+
+
+py_checks.GENS["eventsetup"] = gen_eventsetup_cases
